@@ -238,9 +238,11 @@ func judgeCall(m *mon.M, e *mgrEnv, o callObs, hostile *hostileSeed, scen string
 		if P != o.in.Expect {
 			m.Violation("policy-saw-unexpected-normalisation", wit(map[string]any{"policy_name": P, "expected": o.in.Expect}))
 		}
-	case isASCII(o.in.Name):
-		if P != strings.ToLower(o.in.Name) {
-			m.Violation("policy-saw-unexpected-normalisation", wit(map[string]any{"policy_name": P, "expected": strings.ToLower(o.in.Name)}))
+	default:
+		// hostile spelling: "normalised or refused" — whatever the policy accepted must at least be
+		// in normal form itself (ASCII, lower case), otherwise exact-match policies cannot work
+		if !isASCII(P) || P != strings.ToLower(P) {
+			m.Violation("policy-saw-non-normalised-name", wit(map[string]any{"policy_name": P, "policy_name_hex": mon.Hex([]byte(P))}))
 		}
 	}
 	domain := strings.TrimSuffix(P, ".")
@@ -657,8 +659,9 @@ func TestC51(t *testing.T) {
 		}
 	})
 
-	renewalGrid(m)
 	dirCacheNames(t, m, px, batchTag)
+	renewalGrid(m)
+	tinyRenewal(t, m, px, batchTag)
 
 	m.Gate("certs_fully_checked", 300, "returned certificates were judged")
 	m.Gate("policy_order_checked", 300, "policy-before-cache/CA order was evaluated")
@@ -692,7 +695,34 @@ func renewalGrid(m *mon.M) {
 	total := len(lifetimes) * len(renewBefores) * len(nows)
 	reps := m.N(60, 1000)
 	notBefore := time.Date(2031, 3, 1, 12, 0, 0, 0, time.UTC)
-	m.Each("renewal-grid", total, func(i int64, r *rand.Rand) {
+	// grid points whose documented jitter bound is positive come first: the expected defect
+	// (zero bound) leaves a package-level lock held, after which no further point can be evaluated
+	thrOf := func(idx int) time.Duration {
+		life := lifetimes[idx%len(lifetimes)]
+		rbd := renewBefores[idx/len(lifetimes)%len(renewBefores)].d(life)
+		thr := min(life/3, 30*day)
+		if rbd > 0 {
+			thr = min(rbd, 30*day)
+		}
+		return thr
+	}
+	order := make([]int, 0, total)
+	for idx := 0; idx < total; idx++ {
+		if thrOf(idx) >= 10 {
+			order = append(order, idx)
+		}
+	}
+	for idx := 0; idx < total; idx++ {
+		if thrOf(idx) < 10 {
+			order = append(order, idx)
+		}
+	}
+	m.Each("renewal-grid", total, func(pos int64, r *rand.Rand) {
+		if renewalLockPoisoned {
+			m.Count("renewal_grid_points_skipped_lock_held", 1)
+			return
+		}
+		i := order[pos]
 		life := lifetimes[int(i)%len(lifetimes)]
 		rbc := renewBefores[int(i)/len(lifetimes)%len(renewBefores)]
 		nowK := nows[int(i)/len(lifetimes)/len(renewBefores)]
@@ -753,6 +783,7 @@ func renewalGrid(m *mon.M) {
 				}
 				m.Count("renewal_panics", 1)
 				m.Violation(key, wit)
+				probeRenewalLock(m, wit)
 				return // every repetition of this grid point panics the same way
 			}
 			wit["next"] = d.String()
@@ -781,6 +812,100 @@ func renewalGrid(m *mon.M) {
 	if m.Batch() == 0 && !m.Replaying() {
 		m.SetExhaustive(false) // the grid is enumerated completely, the getcert stream is sampled
 	}
+}
+
+// renewalLockPoisoned is set once a call into the renewal scheduler was seen
+// to leave the package-level pseudoRand lock held (the holder panicked); from
+// then on every call that needs a jitter value would block forever.
+var renewalLockPoisoned bool
+
+// probeRenewalLock checks, after a panic in next(), whether the scheduler is
+// still usable in this process: a call with an ordinary lifetime must return.
+func probeRenewalLock(m *mon.M, panicWit map[string]any) {
+	man := &autocert.Manager{}
+	nb := time.Date(2031, 3, 1, 12, 0, 0, 0, time.UTC)
+	autocert.VerifSetNow(man, func() time.Time { return nb })
+	done, _, _, _ := mon.RunTimed(20*time.Second, func() { autocert.VerifRenewalNext(man, nb, nb.Add(90*24*time.Hour)) })
+	if done {
+		m.Count("renewal_usable_after_panic", 1)
+		return
+	}
+	renewalLockPoisoned = true
+	// structural evidence: the probe is parked on the mutex inside int63n in successive dumps
+	// and no live goroutine is inside int63n holding it
+	parked, holders := 0, 0
+	var raw string
+	for k := 0; k < 3; k++ {
+		if k > 0 {
+			time.Sleep(200 * time.Millisecond)
+		}
+		p, h := 0, 0
+		for _, g := range mon.ParseDump(mon.GoroutineDump()) {
+			if !g.Has("lockedMathRand).int63n") {
+				continue
+			}
+			if g.State == "sync.Mutex.Lock" {
+				p++
+				raw = g.Raw
+			} else {
+				h++
+			}
+		}
+		if p > 0 {
+			parked++
+		}
+		holders += h
+	}
+	if parked == 3 && holders == 0 {
+		m.Violation("renewal-next-blocks-forever-after-panic:pseudoRand-lock-held", map[string]any{
+			"after_panic_at": panicWit, "probe": "VerifRenewalNext(Manager{}, 90 day certificate) did not return",
+			"diagnosis": "lockedMathRand.int63n locks, panics inside math/rand.Int63n(0), and never unlocks; no live goroutine holds the lock", "parked_goroutine": raw})
+	} else {
+		m.Inconclusive(fmt.Sprintf("renewal probe after panic did not return within 20s but the lock evidence is not conclusive (parked in %d/3 dumps, %d possible holders)", parked, holders))
+	}
+}
+
+// tinyRenewal reaches the same scheduler through the public API: a valid
+// cached certificate and a configuration whose renewal threshold is tiny
+// (RenewBefore of a few nanoseconds, or a certificate valid for one instant).
+func tinyRenewal(t *testing.T, m *mon.M, px *caProxy, batchTag string) {
+	type tc struct {
+		name        string
+		renewBefore time.Duration
+		life        time.Duration
+	}
+	cases := []tc{{"RenewBefore=5ns", 5, 60 * 24 * time.Hour}, {"RenewBefore=1ns", 1, time.Hour}, {"RenewBefore=9ns", 9, 90 * 24 * time.Hour}, {"lifetime=0", 0, 0},
+		{"lifetime=1s", 0, time.Second}, {"RenewBefore=10ns", 10, time.Hour}, {"RenewBefore=11ns", 11, time.Hour}, {"RenewBefore=1us", time.Microsecond, time.Hour}}
+	m.Cases("tiny-renewal", len(cases), func(i int64, r *rand.Rand) {
+		if renewalLockPoisoned {
+			m.Count("tiny_renewal_skipped_lock_held", 1)
+			return
+		}
+		c := cases[i]
+		tag := fmt.Sprintf("tr%d%s", i, batchTag)
+		base := tag + ".example.org"
+		now0 := time.Now().Truncate(time.Second).Add(3 * time.Hour)
+		mc := newMemCache()
+		k := c51EC[2]
+		nb := now0.Add(-c.life / 2).Truncate(time.Second)
+		mc.m[base] = append(pemKey(k, ""), pemCerts(mkLeaf(k.Public(), nb, nb.Add(c.life), base))...)
+		log := &scenLog{}
+		e := newManager(t, px, tag, log, mc, func(context.Context, string) error { return nil }, false, nb.Add(c.life/2))
+		defer px.unregister(tag)
+		e.man.RenewBefore = c.renewBefore
+		var o callObs
+		done, _, _, dump := mon.RunTimed(60*time.Second, func() { o = e.call(nameCase{Name: base, Class: "plain", Expect: base}, "both", true) })
+		if !done {
+			renewalLockPoisoned = true
+			m.Inconclusive("tiny-renewal " + c.name + ": GetCertificate did not return within 60s; dump head: " + dump[:min(len(dump), 1500)])
+			return
+		}
+		m.Count("tiny_renewal_cases", 1)
+		judgeCall(m, e, o, nil, "tiny-renewal/"+c.name)
+		if o.panicV != nil {
+			renewalLockPoisoned = true
+		}
+	})
 }
 
 // ---- hostile names against a real DirCache -----------------------------------------------------------------
